@@ -127,6 +127,88 @@ var (
 	phHi  = ceilSecs(1050, notFoundExpiry) //
 )
 
+// ---- expiry configurations (what the caller hands to cache.WithExpiry / cache.WithNotFoundExpiry) ----
+//
+// The statement: "every entry written carries a finite TTL derived from the requested or configured
+// expiry (+/-5% jitter, rounded up to seconds), never a persistent key". A configuration that carries
+// no usable expiry (option not given, zero, negative: e.g. an optional config field passed straight
+// through) still has to produce finite TTLs: the documented defaults of the cache (7 days for rows,
+// 1 minute for not-found markers) take its place. The reference computes the effective expiry here,
+// independently of cacheopt.go.
+const (
+	documentedExpiry         = 7 * 24 * time.Hour
+	documentedNotFoundExpiry = time.Minute
+)
+
+// expOpt: one option of the configuration; set=false: the option is not passed at all.
+type expOpt struct {
+	set bool
+	d   time.Duration
+}
+
+func (o expOpt) String() string {
+	if !o.set {
+		return "-"
+	}
+	return o.d.String()
+}
+
+func (o expOpt) effective(def time.Duration) time.Duration {
+	if !o.set || o.d <= 0 {
+		return def
+	}
+	return o.d
+}
+
+type expConf struct{ e, n expOpt }
+
+func (c expConf) String() string { return "E=" + c.e.String() + ",N=" + c.n.String() }
+
+func (c expConf) options() []cache.Option {
+	var opts []cache.Option
+	if c.e.set {
+		opts = append(opts, cache.WithExpiry(c.e.d))
+	}
+	if c.n.set {
+		opts = append(opts, cache.WithNotFoundExpiry(c.n.d))
+	}
+	return opts
+}
+
+// the option menu, simplest first; the last one is the positive value of the main searches
+var (
+	expMenu  = []expOpt{{false, 0}, {true, 0}, {true, -time.Second}, {true, expiry}}
+	nfMenu   = []expOpt{{false, 0}, {true, 0}, {true, -time.Second}, {true, notFoundExpiry}}
+	mainConf = expConf{expOpt{true, expiry}, expOpt{true, notFoundExpiry}}
+)
+
+func confByName(name string) (expConf, bool) {
+	for _, e := range expMenu {
+		for _, n := range nfMenu {
+			if c := (expConf{e, n}); c.String() == name {
+				return c, true
+			}
+		}
+	}
+	return expConf{}, false
+}
+
+// curConf is the configuration of the history / execution being run (process-global like shape);
+// curExp / curNF the effective expiries the reference works with, valLo..phHi the TTL brackets.
+var (
+	curConf = mainConf
+	curExp  = expiry
+	curNF   = notFoundExpiry
+)
+
+func setConf(c expConf) {
+	curConf = c
+	curExp = c.e.effective(documentedExpiry)
+	curNF = c.n.effective(documentedNotFoundExpiry)
+	valLo, valHi = ceilSecs(950, curExp), ceilSecs(1050, curExp)
+	phLo, phHi = ceilSecs(950, curNF), ceilSecs(1050, curNF)
+}
+
 // jitter menu: answers of mathx.Unstable's random source. AroundDuration computes
 // (1 + dev - 2*dev*f) * base, so f = 0 / 0.5 / 1 give 1.05 / 1.00 / 0.95 times the expiry.
 var jitterMenu = []float64{0.5, 0, 1}
@@ -176,10 +258,12 @@ type redisCmd struct {
 type envT struct {
 	mr  *miniredis.Miniredis
 	rds *redis.Redis
+	ct  *redis.Redis // the same store through a ClusterType client (redis.Cluster()): cacheNode.DelCtx then deletes key by key
 	st  *cache.Stat
 
 	single  *backend          // the one-node store used by NewNode / NewNodeConn
 	cluster *backend          // two more miniredis instances behind cache.New (consistent-hash dispatch)
+	clusterSame *backend      // the same two instances, with an index key name that lives on the SAME node as the primary key of row 1
 	conf    cache.ClusterConf // configuration of the two-node cache cluster
 
 	mu     sync.Mutex
@@ -244,11 +328,37 @@ func initEnv() {
 	e.single = &backend{mrs: []*miniredis.Miniredis{mr}, ixActual: keyIx}
 	e.rds = redis.VerifNewNopBreaker(mr.Addr(), redis.WithHook(cmdSpy{}))
 	// warm the client (connection pool, handshake) outside any history / execution
-	if !e.rds.Ping() {
+	if !pingPatiently(e.rds) {
 		vlib.Fatal("cannot ping miniredis")
 	}
 	e.st = cache.NewStat("c06")
 	env = e
+	injectMongoClient()
+}
+
+// clusterTypeRedis: a redis.ClusterType client over the single miniredis (which answers CLUSTER SLOTS
+// with itself, as go-zero's own cachenode_test uses it), NopBreaker like the node client.
+func (e *envT) clusterTypeRedis() *redis.Redis {
+	if e.ct == nil {
+		e.ct = redis.VerifNewNopBreaker(e.mr.Addr(), redis.Cluster(), redis.WithHook(cmdSpy{}))
+		if !pingPatiently(e.ct) {
+			vlib.Fatal("cannot ping miniredis through the cluster-type client")
+		}
+	}
+	return e.ct
+}
+
+// pingPatiently warms a client at process start-up. go-zero's Ping gives up after one second, which a
+// starved machine (dozens of worker processes starting at once) does not always meet: try again for a
+// while before giving up. Set-up only; no history or execution is running yet.
+func pingPatiently(r *redis.Redis) bool {
+	for i := 0; i < 60; i++ {
+		if r.Ping() {
+			return true
+		}
+		time.Sleep(250 * time.Millisecond)
+	}
+	return false
 }
 
 func (e *envT) installHook(mr *miniredis.Miniredis) {
@@ -286,6 +396,13 @@ func (e *envT) initCluster() {
 		}
 		e.installHook(mr)
 		b.mrs = append(b.mrs, mr)
+		// The go-redis client (with its hooks, the breaker among them) is cached per address for the
+		// whole process: the first Redis value of an address decides. Warm the cache with the
+		// white-box NopBreaker client, as for the single node, so that the clients cache.New builds
+		// through redis.MustNewRedis(conf) share it (see the assumption on the breaker).
+		if !pingPatiently(redis.VerifNewNopBreaker(mr.Addr(), redis.WithHook(cmdSpy{}))) {
+			vlib.Fatal("cannot ping cluster miniredis")
+		}
 		e.conf = append(e.conf, cache.NodeConf{RedisConf: redis.RedisConf{Host: mr.Addr(), Type: redis.NodeType, NonBlock: true}, Weight: 100})
 	}
 	c := cache.New(e.conf, syncx.NewSingleFlight(), e.st, errNodeNF)
@@ -302,22 +419,27 @@ func (e *envT) initCluster() {
 		return -1
 	}
 	p1 := nodeOf(keyP1)
-	for n := 0; ; n++ {
+	same := &backend{mrs: b.mrs}
+	for n := 0; b.ixActual == "" || same.ixActual == ""; n++ {
 		cand := keyIx
 		if n > 0 {
 			cand = fmt.Sprintf("%s~%d", keyIx, n)
 		}
-		if nodeOf(cand) != p1 {
+		switch on := nodeOf(cand); {
+		case on != p1 && b.ixActual == "":
 			b.ixActual = cand
-			break
+		case on == p1 && same.ixActual == "":
+			// second placement: both keys of an Exec on row 1 go to ONE node (cacheCluster.DelCtx groups them)
+			same.ixActual = cand
 		}
 		if n > 200 {
-			vlib.Fatal("cluster probe: no index key name lands on the other node")
+			vlib.Fatal("cluster probe: no index key name lands on the wanted node")
 		}
 	}
 	b.flush()
 	e.takeCmds()
 	e.cluster = b
+	e.clusterSame = same
 }
 
 // backend: the miniredis instance(s) behind one system under test. All oracles use the canonical
